@@ -35,7 +35,15 @@ func init() {
 		}
 		if oList, ok := args[0].(*List); ok {
 			listSelf.Items = append(listSelf.Items, oList.Items...)
+			return NoneType{}, nil
 		}
+		// any other iterable: collect its items first so that a failing
+		// iteration leaves the list untouched
+		items, err := SequenceTuple(args[0])
+		if err != nil {
+			return nil, err
+		}
+		listSelf.Items = append(listSelf.Items, items...)
 		return NoneType{}, nil
 	}, 0, "extend([item])")
 
